@@ -10,6 +10,7 @@ DECLS = [
     ("decl", "str", "s", S("hi")),
     ("arr", "float", "A", None, [[N("1.5"), N("2.5")], [U("-", N("3.0")), N("4.25")]]),
     ("arr", "int", "B", (1, 2), [[N("5"), U("-", N("6"))]]),
+    ("arr", "float", "T", None, [[P("a"), N("1.5")], [N("2.5"), P("alpha")]]),
     ("arr", "complex", "U", None, [[N("1+2j"), N("0.5j"), N("3.0")], [U("-", N("1j")), N("2-1j"), N("0.25")]]),
 ]
 DECL_BY_NAME = {d[2]: d for d in DECLS}
@@ -26,7 +27,7 @@ ARG_SHAPES = [
     ("complex", V("z")), ("complex", F("exp", V("z"))),
     ("bool", BOOL(True)), ("bool", BOOL(False)), ("bool", V("b")),
     ("str", S("s")), ("str", S("with space")), ("str", V("s")),
-    ("array", V("A")), ("array", V("B")), ("array", V("U")),
+    ("array", V("A")), ("array", V("B")), ("array", V("U")), ("array-with-parameters", V("T")), ("array-with-parameters", IDX("T", N("3"))),
     ("param", P("a")), ("param", U("-", P("a"))), ("param", B("*", N("2"), P("a"))), ("param", B("+", P("a"), P("b"))),
     ("param", B("**", P("a"), N("2"))), ("param", B("/", N("1"), P("a"))), ("param", B("/", P("a"), P("b"))),
     ("param", B("-", B("*", P("a"), P("b")), N("1"))), ("param", B("+", P("alpha"), P("a"))),
